@@ -69,17 +69,21 @@ theorem C19_inspect_never_aborts (fs : String → FsEntry) (files : List String)
     | missing => exact ih _ hrest
     | directory => exact ih _ hrest
 
-theorem mergeResult_status (docs : List Xml) (o : Option String) (i n : Bool) :
+theorem mergeResult_status (docs : List Xml) (o : Option (String × Bool)) (i n : Bool) :
     (mergeResult docs o i n).status = 0 ∨ (mergeResult docs o i n).status = 2 := by
   unfold mergeResult
   split
   · split
     · right; rfl
-    · split <;> (left; rfl)
+    · split
+      · left; rfl
+      · split
+        · left; rfl
+        · right; rfl
   · right; rfl
 
 /-- C19: exit status is 0 (success) or 2 (any error) -/
-theorem C19_merge_status (fs : String → FsEntry) (files : List String) (o : Option String) (i n : Bool) :
+theorem C19_merge_status (fs : String → FsEntry) (files : List String) (o : Option (String × Bool)) (i n : Bool) :
     (cliMerge fs files o i n).status = 0 ∨ (cliMerge fs files o i n).status = 2 := by
   unfold cliMerge
   split
@@ -104,13 +108,13 @@ theorem readAll_some (fs : String → FsEntry) (files : List String) (docs : Lis
     library's merged collection, built with `allow_incomplete = --incomplete` and merged with
     `strict = not --non-strict`; success means: every file is readable XML, the collection is
     accepted and the merge raises nothing -/
-theorem C19_merge_output (fs : String → FsEntry) (files : List String) (o : Option String) (i n : Bool)
+theorem C19_merge_output (fs : String → FsEntry) (files : List String) (o : Option (String × Bool)) (i n : Bool)
     (h : (cliMerge fs files o i n).status = 0) :
     ∃ docs run, files.map fs = docs.map FsEntry.xml ∧
       (collection docs i (!n)).err = none ∧ (collection docs i (!n)).run = some run ∧ run.err = none ∧
       (match o with
        | none => (cliMerge fs files o i n).stdout = some (serialize run.ro) ∧ (cliMerge fs files o i n).written = none
-       | some _ => (cliMerge fs files o i n).written = some (serialize run.ro)) := by
+       | some p => p.2 = true ∧ (cliMerge fs files o i n).written = some (serialize run.ro)) := by
   by_cases hne : files.isEmpty = true
   · simp [cliMerge, hne, cliFail] at h
   · cases hr : readAll fs files with
@@ -133,11 +137,14 @@ theorem C19_merge_output (fs : String → FsEntry) (files : List String) (o : Op
             refine ⟨run, readAll_some fs files docs hr, by simp, by simp, hre, ?_⟩
             cases o with
             | none => simp
-            | some p => simp
+            | some p =>
+              cases hw : p.2 with
+              | true => simp [hw]
+              | false => simp [hre, hw, cliFail] at h
 
 /-- C19: conversely, any unreadable or non-XML file, a rejected collection, or an exception during
     the merge gives status 2 and writes nothing -/
-theorem C19_merge_failure (fs : String → FsEntry) (files : List String) (o : Option String) (i n : Bool)
+theorem C19_merge_failure (fs : String → FsEntry) (files : List String) (o : Option (String × Bool)) (i n : Bool)
     (h : (cliMerge fs files o i n).status = 2) : cliMerge fs files o i n = cliFail := by
   by_cases hne : files.isEmpty = true
   · simp [cliMerge, hne]
@@ -158,6 +165,27 @@ theorem C19_merge_failure (fs : String → FsEntry) (files : List String) (o : O
           | some e => simp
           | none =>
             simp only [hre] at h
-            cases o <;> simp at h
+            cases o with
+            | none => simp at h
+            | some p =>
+              cases hw : p.2 with
+              | true => simp [hw] at h
+              | false => simp [hw]
+
+/-- C19: an outfile that cannot be opened for writing is an error like any other: status 2, nothing
+    printed to stdout, nothing written - whatever the inputs -/
+theorem C19_merge_unwritable (fs : String → FsEntry) (files : List String) (p : String) (i n : Bool) :
+    cliMerge fs files (some (p, false)) i n = cliFail := by
+  unfold cliMerge
+  split
+  · rfl
+  · split
+    · rfl
+    · unfold mergeResult
+      split
+      · split
+        · rfl
+        · simp
+      · rfl
 
 end Mrm
